@@ -4,12 +4,12 @@ package main
 // generating proof obligations.
 
 import (
-	"os"
 	"fmt"
 	"go/constant"
 	"go/token"
 	"go/types"
 	"math/big"
+	"os"
 	"sort"
 	"strings"
 
@@ -22,16 +22,16 @@ type Query struct {
 	Path  string
 	Model []*Term
 	// filled by the solver stage
-	Result  string
-	Solver  string
-	Seconds float64
-	Output  string
-	Script  string
-	ScriptG string
+	Result      string
+	Solver      string
+	Seconds     float64
+	Output      string
+	Script      string
+	ScriptG     string
 	ScriptsPart []string
-	Hints   map[string][]*Term
-	Names   []string
-	MNames  []string
+	Hints       map[string][]*Term
+	Names       []string
+	MNames      []string
 }
 
 type Oblig struct {
@@ -174,31 +174,31 @@ type Frame struct {
 }
 
 type Exec struct {
-	curSite ssa.Instruction // the call instruction being executed (for static call-site ordinals)
-	callBinds []Val         // captured-variable cells of the closure being called modularly
-	E       *Engine
-	fn      *ssa.Function
-	fc      *FuncContract
-	tc      *TypeCtx
-	npaths  int
-	maxPath int
-	dry     bool
-	dryEff  *effects
-	aborted string
-	topFrame *Frame
-	caseName string
-	nret     int
-	retSite  string         // position of the return statement being executed (top frame)
-	retSiteN map[string]int // paths seen per return site
-	curFr    *Frame
-	mterms   []*Term
-	mnames   []string
+	curSite   ssa.Instruction // the call instruction being executed (for static call-site ordinals)
+	callBinds []Val           // captured-variable cells of the closure being called modularly
+	E         *Engine
+	fn        *ssa.Function
+	fc        *FuncContract
+	tc        *TypeCtx
+	npaths    int
+	maxPath   int
+	dry       bool
+	dryEff    *effects
+	aborted   string
+	topFrame  *Frame
+	caseName  string
+	nret      int
+	retSite   string         // position of the return statement being executed (top frame)
+	retSiteN  map[string]int // paths seen per return site
+	curFr     *Frame
+	mterms    []*Term
+	mnames    []string
 	mtermsFor *Frame
 }
 
 type effects struct {
 	locals map[*ssa.Alloc]bool
-	heap   map[string]bool // heap keys (leaf-level)
+	heap   map[string]bool    // heap keys (leaf-level)
 	refs   map[string][]*Term // refs written per key (nil entry = whole array)
 	whole  map[string]bool
 	all    bool
@@ -556,8 +556,8 @@ func (x *Exec) pos(p token.Pos) string {
 // ---------------------------------------------------------------- loops
 
 type loopInfo struct {
-	heads []*ssa.BasicBlock          // sorted by index
-	ord   map[*ssa.BasicBlock]int    // 1-based ordinal
+	heads []*ssa.BasicBlock       // sorted by index
+	ord   map[*ssa.BasicBlock]int // 1-based ordinal
 	body  map[*ssa.BasicBlock]map[*ssa.BasicBlock]bool
 }
 
